@@ -1147,6 +1147,27 @@ func checkLineEndMatchesSearch(c *Ctx, rule string) {
 					})
 				}
 			}
+			// ... and the returned line begins at the read position itself: a search that resumes behind the bytes already
+			// scanned before a fill must still hand out those bytes
+			startOK := sl.Low != nil
+			if sl.Low != nil {
+				lo := lin(sl.Low, 0)
+				nf := 0
+				for t, cc := range lo.co {
+					if cc == 0 {
+						continue
+					}
+					if strings.HasPrefix(t, "fld:") && cc == 1 {
+						nf++
+					} else {
+						startOK = false
+					}
+				}
+				if nf != 1 || lo.k != 0 {
+					startOK = false
+				}
+			}
+			c.Check(startOK, rule, fmt.Sprintf("%s line#%d starts at the read position", fnKey(fn), n), sl.Pos(), "the returned line starts at the reader's cursor", "the returned line does not start at the read position (an offset - e.g. the number of bytes already scanned before the last fill - is added to it): a line that arrives in two reads loses its head, so \":1|234567\" decodes as 234567 and a bulk length \"$1|0\" as 0 - what is decoded depends on how the bytes were fragmented")
 			c.Check(same, rule, site, sl.Pos(), "end of the returned line = start of the searched window + index + 1", "the index returned by the search is relative to the start of the searched window, but the line end is computed from a different origin: when the window does not start at the read position (bytes already scanned before the last fill are skipped) the returned line is too short - the decoder sees a bad line terminator on a valid stream, the session (or the shared backend connection with everything in flight on it) is torn down, and whether that happens depends on how the bytes were fragmented")
 		})
 	}
